@@ -153,6 +153,13 @@ class Builder:
             elif isinstance(obj, UsePulsesStatement):
                 usepulses.append(obj)
                 if self.autoload_pulses:
+                    if statements or macros:
+                        # Statements already built are bound to the gate
+                        # definitions known so far, which this import could
+                        # replace.
+                        raise JaqalError(
+                            "Pulse definitions must be loaded before the first gate or macro"
+                        )
                     obj.update_gates(gate_context, inject_pulses=self.inject_pulses)
                     obj.update_gates(native_gates, inject_pulses=self.inject_pulses)
                     # The gates just loaded may replace definitions that
